@@ -9,6 +9,11 @@
   * `wire_tag` : the CBOR encoding of an item whose first token is tagged begins with the tag head.
   * `untyped_unknown_tag`, `untyped_known_tag` : an untyped slot given a tagged token reconstructs the type
         registered under that tag, and an unregistered tag is an error, not ignored.
+
+  All eight statements are proved as first written.  `ex_transform_overrides_inner_tag` and
+  `ex_builtin_not_overridable` (end of file) are concrete evaluations of the model showing the two situations
+  the hypotheses leave out: a tagged transform overwrites the tag of a tagged target type, and an entry
+  registered for a predeclared primitive type is never consulted.
 -/
 import RefmtModel
 set_option linter.unusedSimpArgs false
@@ -16,17 +21,43 @@ set_option linter.unusedVariables false
 namespace Refmt.C20
 open Refmt Refmt.Obj
 
+theorem seq_ok_toks (ts : List Tok) (b : Unit → MOut) : (MOut.ok ts).seq b = ⟨ts ++ (b ()).toks, (b ()).fail⟩ := by
+  simp [MOut.seq, MOut.ok]
+
 theorem struct_tag_first (ts : Types) (a : Atlas) (trs : Trs) (fuel id : Nat) (e : Entry) (fields : List SMField) (v : Val)
     (t : Tok) (rest : List Tok) (f : Option Fail)
     (h : marshalBare ts a trs fuel id (.structMap e fields) v = ⟨t :: rest, f⟩) :
     t.tag = e.tag ∧ ∃ n, t.body = .mapOpen n := by
-  sorry
+  cases fuel with
+  | zero => simp [marshalBare, MOut.bad] at h
+  | succ fuel =>
+    simp only [marshalBare, seq_ok_toks] at h
+    simp at h
+    obtain ⟨⟨rfl, _⟩, _⟩ := h
+    exact ⟨rfl, _, rfl⟩
 
 theorem transform_tag_first (ts : Types) (a : Atlas) (trs : Trs) (fuel id fn mty : Nat) (e : Entry) (g : Int) (v : Val)
     (t : Tok) (rest : List Tok) (f : Option Fail) (hg : e.tag = some g)
     (h : marshalBare ts a trs fuel id (.transform e fn mty) v = ⟨t :: rest, f⟩) :
     t.tag = some g := by
-  sorry
+  cases fuel with
+  | zero => simp [marshalBare, MOut.bad] at h
+  | succ fuel =>
+    simp only [marshalBare] at h
+    cases hm : trs.m fn v with
+    | none => simp [hm, MOut.bad] at h
+    | some tv =>
+      simp only [hm, hg, retagFirst] at h
+      cases ht : (marshalV ts a trs fuel mty tv).toks with
+      | nil =>
+        rw [ht] at h
+        have := congrArg MOut.toks h
+        simp [ht] at this
+      | cons t0 r0 =>
+        rw [ht] at h
+        have := congrArg MOut.toks h
+        simp at this
+        rw [← this.1]
 
 /-- the entry kinds the property quantifies over (struct maps and transforms) -/
 def taggable (e : Entry) : Bool :=
@@ -43,12 +74,57 @@ def overridable (ts : Types) (id : Nat) : Bool :=
   | .ptr _ => false
   | _ => true
 
+theorem peel_nonptr (ts : Types) (fuel n id : Nat) (h : ∀ e, ts.get id ≠ .ptr e) : peel ts fuel n id = (n, id) := by
+  cases fuel with
+  | zero => rfl
+  | succ fuel =>
+    unfold peel
+    split
+    · next e he => exact absurd he (h e)
+    · rfl
+
+theorem overridable_nonptr {ts : Types} {id : Nat} (ho : overridable ts id = true) : ∀ e, ts.get id ≠ .ptr e := by
+  intro e he
+  simp [overridable, he] at ho
+
+theorem pickBare_entry (ts : Types) (a : Atlas) (e : Entry)
+    (hreg : a.get e.ty = some e) (ho : overridable ts e.ty = true) :
+    pickBare ts a e.ty = machForEntry ts e := by
+  unfold pickBare
+  unfold overridable at ho
+  split
+  · next h => simp [h] at ho
+  · next h => simp [h] at ho
+  · simp [hreg]
+
+theorem bare_tagged (ts : Types) (a : Atlas) (trs : Trs) (fuel : Nat) (e : Entry) (g : Int) (v : Val)
+    (t : Tok) (rest : List Tok) (f : Option Fail)
+    (hg : e.tag = some g) (hk : taggable e = true)
+    (h : marshalBare ts a trs fuel e.ty (machForEntry ts e) v = ⟨t :: rest, f⟩) :
+    t.tag = some g := by
+  unfold taggable at hk
+  unfold machForEntry at h
+  split at hk
+  · next fs hfs =>
+    rw [hfs] at h
+    have := (struct_tag_first ts a trs fuel e.ty e fs v t rest f h).1
+    rw [this, hg]
+  · next fn m u hfs =>
+    rw [hfs] at h
+    exact transform_tag_first ts a trs fuel e.ty fn m e g v t rest f hg h
+  · exact absurd hk (by simp)
+
 theorem tagged_occurrence (ts : Types) (a : Atlas) (trs : Trs) (fuel : Nat) (e : Entry) (g : Int) (v : Val)
     (t : Tok) (rest : List Tok) (f : Option Fail)
     (hreg : a.get e.ty = some e) (hg : e.tag = some g) (hk : taggable e = true) (ho : overridable ts e.ty = true)
     (h : marshalV ts a trs fuel e.ty v = ⟨t :: rest, f⟩) :
     t.tag = some g := by
-  sorry
+  cases fuel with
+  | zero => simp [marshalV, MOut.bad] at h
+  | succ fuel =>
+    simp only [marshalV, peel_nonptr ts 64 0 e.ty (overridable_nonptr ho), pickBare_entry ts a e hreg ho] at h
+    simp at h
+    exact bare_tagged ts a trs fuel e g v t rest f hg hk h
 
 /-- through a non-nil pointer the same tokens are produced -/
 theorem tagged_through_pointer (ts : Types) (a : Atlas) (trs : Trs) (fuel pid : Nat) (e : Entry) (g : Int) (v : Val)
@@ -57,7 +133,16 @@ theorem tagged_through_pointer (ts : Types) (a : Atlas) (trs : Trs) (fuel pid : 
     (hreg : a.get e.ty = some e) (hg : e.tag = some g) (hk : taggable e = true) (ho : overridable ts e.ty = true)
     (h : marshalV ts a trs fuel pid (.ptr (some v)) = ⟨t :: rest, f⟩) :
     t.tag = some g := by
-  sorry
+  cases fuel with
+  | zero => simp [marshalV, MOut.bad] at h
+  | succ fuel =>
+    have hpeel : peel ts 64 0 pid = (1, e.ty) := by
+      show (match ts.get pid with | .ptr e => peel ts 63 (0 + 1) e | _ => (0, pid)) = _
+      rw [hp]
+      exact peel_nonptr ts 63 1 e.ty (overridable_nonptr ho)
+    simp only [marshalV, hpeel, pickBare_entry ts a e hreg ho] at h
+    simp [derefN] at h
+    exact bare_tagged ts a trs fuel e g v t rest f hg hk h
 
 /-- inside an untyped slot -/
 theorem tagged_in_untyped (ts : Types) (a : Atlas) (trs : Trs) (fuel iid : Nat) (e : Entry) (g : Int) (v : Val)
@@ -66,22 +151,81 @@ theorem tagged_in_untyped (ts : Types) (a : Atlas) (trs : Trs) (fuel iid : Nat) 
     (hreg : a.get e.ty = some e) (hg : e.tag = some g) (hk : taggable e = true) (ho : overridable ts e.ty = true)
     (h : marshalV ts a trs fuel iid (.iface (some (e.ty, v))) = ⟨t :: rest, f⟩) :
     t.tag = some g := by
-  sorry
+  cases fuel with
+  | zero => simp [marshalV, MOut.bad] at h
+  | succ fuel =>
+    have hpeel : peel ts 64 0 iid = (0, iid) := peel_nonptr ts 64 0 iid (by simp [hi])
+    have hpick : pickBare ts a iid = .wildcard := by simp [pickBare, hi, hni]
+    simp only [marshalV, hpeel, hpick] at h
+    simp at h
+    cases fuel with
+    | zero => simp [marshalBare, MOut.bad] at h
+    | succ fuel =>
+      simp only [marshalBare] at h
+      exact tagged_occurrence ts a trs fuel e g v t rest f hreg hg hk ho h
 
 /-- on the wire the tag head comes directly before the item -/
 theorem wire_tag (tv : TV) (g : Int) (t : Tok) (rest : List Tok) (h : tv.flatten = t :: rest) (ht : t.tag = some g) :
     ∃ item, Spec.Cbor.enc tv = Spec.Cbor.head 0xc0 (toU64 g) ++ item := by
-  sorry
+  cases tv with
+  | scalar t0 =>
+    simp [TV.flatten] at h
+    obtain ⟨rfl, _⟩ := h
+    exact ⟨_, by simp only [Spec.Cbor.enc, ht, Spec.Cbor.tagBytes]; rfl⟩
+  | arr tag len items =>
+    simp [TV.flatten] at h
+    obtain ⟨rfl, _⟩ := h
+    simp at ht
+    subst ht
+    simp only [Spec.Cbor.enc, Spec.Cbor.tagBytes]
+    split
+    · exact ⟨_, by simp only [List.append_assoc]; rfl⟩
+    · exact ⟨_, by simp only [List.append_assoc]; rfl⟩
+  | map tag len items =>
+    simp [TV.flatten] at h
+    obtain ⟨rfl, _⟩ := h
+    simp at ht
+    subst ht
+    simp only [Spec.Cbor.enc, Spec.Cbor.tagBytes]
+    split
+    · exact ⟨_, by simp only [List.append_assoc]; rfl⟩
+    · exact ⟨_, by simp only [List.append_assoc]; rfl⟩
 
 theorem untyped_unknown_tag (ts : Types) (a : Atlas) (trs : Trs) (it : IfaceTys) (fuel : Nat) (b : Body) (g : Int) (rest : List Tok)
     (h : a.getByTag g = none) :
     unmWild ts a trs it (fuel + 1) false ⟨b, some g⟩ rest = .err 0 := by
-  sorry
+  simp [unmWild, h]
 
 theorem untyped_known_tag (ts : Types) (a : Atlas) (trs : Trs) (it : IfaceTys) (fuel : Nat) (b : Body) (g : Int) (rest : List Tok)
     (e : Entry) (v : Val) (r : List Tok) (u : Nat) (h : a.getByTag g = some e)
     (hu : unmBare ts a trs it fuel e.ty (upickBare ts a e.ty) (zeroVal ts 64 e.ty) (⟨b, some g⟩ :: rest) = .ok v r u) :
     unmWild ts a trs it (fuel + 1) false ⟨b, some g⟩ rest = .ok (.iface (some (e.ty, v))) r u := by
-  sorry
+  simp [unmWild, h, hu]
+
+/-! ### Remarks: what the hypotheses exclude (concrete evaluations of the model)
+
+  The statements above hold as first written.  The two examples below show that their hypotheses are needed
+  and document the two situations in which a registered tag does not reach the stream. -/
+
+/-- A tagged transform whose marshal target is itself a tagged registered type: the delegate's first token
+    carries the target's tag (20), the transform machine then overwrites it with its own (10) — a token has
+    a single tag slot, so the inner tag is lost (`tagged_occurrence` holds for both entries at their own
+    `marshalV` call; it is the enclosing transform that replaces the tag afterwards). -/
+theorem ex_transform_overrides_inner_tag :
+    let ts : Types := [(0, .struct []), (1, .struct [])]
+    let a : Atlas := ⟨[⟨true, 0, some 10, .transform 0 1 1⟩, ⟨true, 1, some 20, .structMap []⟩], .default⟩
+    let trs : Trs := ⟨fun _ v => some v, fun _ v => some v⟩
+    marshalV ts a trs 10 1 (.struct []) = ⟨[⟨.mapOpen 0, some 20⟩, ⟨.mapClose, none⟩], none⟩ ∧
+    marshalV ts a trs 10 0 (.struct []) = ⟨[⟨.mapOpen 0, some 10⟩, ⟨.mapClose, none⟩], none⟩ := by
+  constructor <;> with_unfolding_all rfl
+
+/-- `overridable` is needed: an atlas entry (here a tagged transform) registered for a predeclared primitive
+    type is never consulted, the value is emitted by the primitive machine, untagged. -/
+theorem ex_builtin_not_overridable :
+    let ts : Types := [(0, .prim .int true), (1, .prim .string true)]
+    let a : Atlas := ⟨[⟨true, 0, some 10, .transform 0 1 1⟩], .default⟩
+    let trs : Trs := ⟨fun _ _ => some (.str [120]), fun _ v => some v⟩
+    marshalV ts a trs 10 0 (.int 7) = ⟨[⟨.int 7, none⟩], none⟩ := by
+  with_unfolding_all rfl
 
 end Refmt.C20
